@@ -566,7 +566,7 @@ where
 {
     let seed = run.seed;
     let names = ["copy", "add_into", "negate", "rotate", "normalize", "lsh", "rsh", "negate_assign", "add_assign", "normalize_assign"];
-    let depth = run.tier.pick(2usize, 3usize);
+    let depth = run.tier.pick(3usize, 4usize);
     let max_size = 3usize;
     let mut cs = vec![];
     // all sequences of (op, size) of the given depth
@@ -601,7 +601,7 @@ where
     run.states += cs.len() as u64;
     run.family(
         &format!("histories/{}", B::NAME),
-        "all sequences of depth 2 (quick) / 3 (thorough) over (10 operations x active size 1..3 set by set_size before the call) on one reused output buffer of capacity 3; two initial garbage fills; invariant after each step: limbs the size rule defines agree, limbs beyond the active size untouched",
+        "all sequences of depth 3 (quick) / 4 (thorough) over (10 operations x active size 1..3 set by set_size before the call) on one reused output buffer of capacity 3; two initial garbage fills; invariant after each step: limbs the size rule defines agree, limbs beyond the active size untouched",
         cs,
         |c, rec| exec_hist::<B>(c, seed, rec),
     );
